@@ -317,9 +317,59 @@ def interior_and_boundary_points(q, pieces, max_pieces=64, rng=None):
     return pts
 
 
+AMBIGUOUS_SKIPPED = [0]
+
+
+def _lowbit_exp(v):
+    """exponent k of the lowest set bit of the dyadic rational v != 0 (v = odd * 2^k)"""
+    v = Fraction(v)
+    k = 0
+    n, d = abs(v.numerator), v.denominator
+    while n % 2 == 0:
+        n //= 2
+        k += 1
+    while d % 2 == 0:
+        d //= 2
+        k -= 1
+    return k if d == 1 else None
+
+
+def routing_ambiguous(conds, x):
+    """is the f64 evaluation of some a.x - b on this path not guaranteed to have the sign of the exact value?
+    (the exact value is within the rounding error of 0, or it is 0 and the f64 computation is not exact in every
+    summation order).  Such a point cannot validate the translator: exact and f64 routing may legitimately differ."""
+    for c in conds:
+        if not any(c.a):
+            continue
+        terms = [Fraction(a) * Fraction(v) for a, v in zip(c.a, x) if a != 0 and v != 0]
+        mag = sum(abs(t) for t in terms) + abs(c.b)
+        s = sum(terms) - c.b
+        err = mag * (len(terms) + 2) * Fraction(1, 2**52)
+        if s != 0:
+            if abs(s) <= err:
+                return True
+            continue
+        ks = [_lowbit_exp(t) for t in terms + ([c.b] if c.b != 0 else [])]
+        if any(k is None for k in ks):
+            return True
+        if ks and mag / Fraction(2) ** min(ks) >= 2**53:
+            return True
+    return False
+
+
 def compare_eval(real, pieces, x, tol=VALUE_TOL):
     """compare one result of the driver's `eval` with the exact piece semantics at rational x.
     returns None if they agree, else a description"""
+    d = _compare_eval(real, pieces, x, tol)
+    if d is not None and "panic" not in real:
+        p, _ = eval_pieces(pieces, x)
+        if routing_ambiguous(p.conds, x):
+            AMBIGUOUS_SKIPPED[0] += 1
+            return None
+    return d
+
+
+def _compare_eval(real, pieces, x, tol=VALUE_TOL):
     if "panic" in real:
         p, val = eval_pieces(pieces, x)
         if p.tag == "panic":
